@@ -253,6 +253,28 @@ def run_case(ctx, res, spec, lines, post, field=False):
                                                      'input': {**info, 'iteration': it + 1, 'where': where, 'mode': mode, 'output': k}})
                 res.hit('save-load-' + where)
             shutil.move(str(base / 'ckpt_hidden'), str(d))
+            # a snapshot saved under the SAME file name at every iteration, each in its own directory; the latest one is moved
+            # and loaded while the working directory is the directory of the OLDEST one (same payload file names, stale content)
+            d2 = base / f'snap{it}'
+            d2.mkdir()
+            system.save_to_file('snap.yml', save_dir=d2)
+            if it >= 1:
+                moved2 = base / f'snapmoved{it}'
+                shutil.move(str(d2), str(moved2))
+                os.chdir(base / 'snap0')
+                try:
+                    loaded2 = System.load_from_file(moved2 / 'snap.yml')
+                    diff2 = first_diff(live, deep_state(loaded2))
+                    if diff2:
+                        res.failures.append({'kind': 'loaded-state-mixes-in-a-stale-payload-from-the-working-directory',
+                                             'input': {**info, 'iteration': it + 1}, 'observed': diff2})
+                except Exception as e:  # noqa: BLE001
+                    res.failures.append({'kind': 'load-from-file-raised', 'signature': 'none',
+                                         'input': {**info, 'iteration': it + 1, 'where': 'moved, stale same-named save in cwd'},
+                                         'observed': repr(e)[:400]})
+                finally:
+                    os.chdir(old_cwd)
+                res.hit('save-load-moved-with-stale-namesake-in-cwd')
             # document keys vs the field-map model
             for c in system.components:
                 lines.append('ps.keys ' + ' '.join(f'{k}={v}' for k, v in comp_flags(c).items()))
@@ -334,7 +356,8 @@ def run(ctx: core.Ctx, only=None) -> core.Result:
         items = [o.get('input', o) for o in only]
     else:
         gens = [gen_spec(ctx.rng) for _ in range(ctx.scale(3, 25))]
-        gens[0].update(nan_c=True, ncomp=max(3, gens[0]['ncomp']))      # every run saves imputed (NaN-replacing) training values
+        gens[0].update(nan_c=True, ncomp=max(3, gens[0]['ncomp']), na=1)   # every run saves imputed (NaN-replacing) training values
+        #                                                                      and a multi-fidelity component with per-fidelity costs
         if len(gens) > 1:
             gens[1].update(nan_c=False)
         items = core.corpus_cases('C12') + [{'spec': g} for g in gens] + \
